@@ -28,6 +28,21 @@ def check(ctx):
     n += check_loose(ctx, loose_for("C20"))
     ctx.count("twin_pairs", n)
     ctx.floor("twin_pairs", 3)
+    # ---------------- take/shuffle: the narrow integer dtype of the per-chunk index arrays must hold every in-chunk offset
+    import ast as _ast
+    from ..lib import calls, unparse, find, walk_no_nested, dominates
+
+    for rel, q in (("dask/array/_shuffle.py", "_shuffle"), ("dask/array/_array_expr/_shuffle.py", "Shuffle._layer")):
+        f = ctx.model.module(rel).func(q)
+        ms = [c for c in calls(f, "np.min_scalar_type")]
+        ok = len(ms) == 1 and unparse(ms[0].args[0]).startswith("max(*chunks[axis], ")
+        ctx.ob("ALG.take.index-dtype", f, "np.min_scalar_type(max(*chunks[axis], <limit>)): wide enough for every input chunk's offsets", ok, "" if ok else "offsets into an input chunk longer than the limit wrap around in the narrow dtype: wrong elements are taken")
+    # ---------------- vindex: bounds are checked against the shape AFTER the non-fancy part of the index is applied
+    vi = ctx.model.module("dask/array/core.py").func("_vindex")
+    red = find("x = x[nonfancy_indexes]", vi)
+    loops = [l for l in walk_no_nested(vi) if isinstance(l, _ast.For) and "zip(reduced_indexes, x.shape)" in unparse(l.iter)]
+    ok = len(red) == 1 and len(loops) == 1 and dominates(vi, red[0][0], loops[0])
+    ctx.ob("ORD.vindex.reduce-before-bounds", vi, "x = x[nonfancy_indexes] dominates the loop that normalises negative / checks out-of-range points against x.shape", ok, "" if ok else "points are wrapped and range-checked against the un-sliced extent: negative points select the wrong element when the same call also slices that axis' neighbours")
 
 
 VARIANTS = [
